@@ -431,6 +431,11 @@ def _do_rewrite(source: str, rewrite: _Rewrite, *, fix_function_name: str = "") 
         if new_code_lines == code_lines:
             return source
 
+        if old.start > len(source) and new_code:
+            # A position on the (empty) line after the last line: the columns before it do not
+            # exist in the source, so the indentation has to be written out.
+            new_code = " " * (old.start - len(source)) + new_code
+
         candidate = source[: old.start] + new_code + source[old.end :]
         if new_code or core.is_valid_python(candidate):
             choice = candidate
@@ -475,6 +480,11 @@ def _do_rewrite(source: str, rewrite: _Rewrite, *, fix_function_name: str = "") 
 
     if core.has_ignore_comment(source, core.Range(start, end)):
         return source
+
+    if start > len(source):
+        # A node placed on the (empty) line after the last line: the columns before it do not exist
+        # in the source, so its indentation has to be written out.
+        new_code = " " * (start - len(source)) + new_code
 
     candidate = source[:start] + new_code + source[end:]
 
